@@ -74,10 +74,11 @@ class World:
         return self.wait_event(lambda r: r["e"] == "tok.dep.changed" and r.get("job") == j and r.get("new") == "OK", timeout, since)
 
     # --- processes
-    def start(self, p):
+    def start(self, p, total=None):
+        """total: the process declares the token with another total than the one it was created with"""
         env = dict(os.environ, PYTHONPATH=f"{REPO_SRC}:{VERIF}", XPM_VERIF="1", XPM_VERIF_TRACE=str(self.log),
                    XPM_VERIF_PAUSE=str(self.pausedir))
-        q = subprocess.Popen(["/venv/bin/python", "-W", "ignore", str(PROC), str(self.tokdir), str(self.total), p, str(self.jobsroot)],
+        q = subprocess.Popen(["/venv/bin/python", "-W", "ignore", str(PROC), str(self.tokdir), str(self.total if total is None else total), p, str(self.jobsroot)],
                              env=env, stdin=subprocess.PIPE, stdout=subprocess.PIPE, stderr=subprocess.DEVNULL, text=True, bufsize=1)
         self.procs[p] = q
         self.pids[p] = q.pid
@@ -393,7 +394,56 @@ def sc_race_in_create():
     return w.close()
 
 
-SCENARIOS = {"orphan_killed": sc_orphan_killed, "late_start_two": sc_late_start_two, "race_in_create": sc_race_in_create, "contention": sc_contention, "halfwritten": sc_halfwritten, "owner_dies_running": sc_owner_dies_running,
+def sc_enlarged():
+    """a job waits for more than the token has; another scheduler declares the token again with a larger total: the job
+    is told, takes the token and runs"""
+    w = World(1, {"a": "p1"}, {"a": 2})
+    w.start("p1")
+    w.submit("a")
+    m = w.mark()
+    w.start("p2", total=3)
+    w.told("a", m, 10)
+    w.quiescent()
+    w.acquire("a"); w.startjob("a"); w.endjob("a"); w.release("a")
+    w.quiescent()
+    return w.close()
+
+
+def sc_enlarged_while_held():
+    """one unit, held by a running job while a second job waits; the token is declared again with two units"""
+    w = World(1, {"a": "p1", "b": "p1"}, {"a": 1, "b": 1})
+    w.start("p1")
+    w.submit("a"); w.submit("b")
+    w.acquire("a"); w.startjob("a")
+    w.acquire("b")
+    m = w.mark()
+    w.start("p2", total=2)
+    w.told("b", m, 10)
+    w.acquire("b"); w.startjob("b")
+    w.endjob("a"); w.release("a"); w.endjob("b"); w.release("b")
+    w.quiescent()
+    return w.close()
+
+
+def sc_info_torn():
+    """the only scheduler dies while it rewrites token.info (the file is left empty: truncated, not yet written); the
+    next scheduler declares the token again and uses it"""
+    w = World(1, {"a": "p1", "b": "p2"}, {"a": 1, "b": 1})
+    w.start("p1")
+    w.kill("p1")
+    (w.tokdir / "token.info").write_text("")
+    w.emit("h.note", what="token.info left empty by the dead writer")
+    r = w.start("p2")
+    if r and r.get("ok") and w.procs["p2"].poll() is None:
+        w.submit("b")
+        r = w.acquire("b")
+        if r and r.get("acquired"):
+            w.startjob("b"); w.endjob("b"); w.release("b")
+    w.quiescent()
+    return w.close()
+
+
+SCENARIOS = {"info_torn": sc_info_torn, "enlarged": sc_enlarged, "enlarged_while_held": sc_enlarged_while_held, "orphan_killed": sc_orphan_killed, "late_start_two": sc_late_start_two, "race_in_create": sc_race_in_create, "contention": sc_contention, "halfwritten": sc_halfwritten, "owner_dies_running": sc_owner_dies_running,
              "dies_mid_create": sc_dies_mid_create, "partial_returns": sc_partial_returns, "mixed": sc_mixed}
 
 if __name__ == "__main__":
@@ -508,7 +558,7 @@ def full_run(total, procs, gate_order, settle=0.4):
                 if e.get("origin") != "CounterToken":
                     continue
                 r["job"] = ident2job.get(e.get("ident"), e.get("job", "?"))
-            for f in ("available", "by", "new", "status"):
+            for f in ("available", "by", "new", "status", "total", "delta"):
                 if f in e:
                     r[f] = e[f]
         out.append(r)
